@@ -163,19 +163,6 @@ theorem C16_range_spec (start stop step : Rat) (hs : 0 < step) (hle : start ≤ 
 
 /-! ## `get_coord_index` -/
 
-/-- value of the lookup on a non-empty sorted axis, by cases on the position of `v` -/
-theorem coordIndex_sorted (coords : List Rat) (v : Rat) (raise : Bool) (hs : Sorted coords)
-    (hne : coords ≠ []) :
-    coordIndex coords v raise =
-      if v < coords.head hne ∨ v > coords.getLast hne then
-        (if raise then .error .key else if v < coords.head hne then .ok 0 else .ok coords.length)
-      else .ok (countLE coords v - 1) := by
-  cases coords with
-  | nil => exact absurd rfl hne
-  | cons x xs =>
-    simp only [coordIndex, listMin_sorted hs, listMax_sorted hs, List.head_cons]
-    rfl
-
 /-- inside the axis range the lookup returns an index `i` with `coords[i] ≤ v`, `v < coords[i+1]`
     when there is a next coordinate, and it is the only such index -/
 theorem C16_index_unique (coords : List Rat) (v : Rat) (raise : Bool) (hs : Sorted coords)
